@@ -414,7 +414,7 @@ class Renderer:
         k = o["k"]
         if "fn" in k:
             return ("fnref", k.get("fnn") or k["fn"])
-        return ("const", k.get("v"), k.get("ty"), k.get("def") or k.get("s"))
+        return ("const", k.get("v"), k.get("ty"), k.get("variant") or k.get("def") or k.get("s"))
 
     def rvalue(self, rv, depth=None):
         depth = self.depth if depth is None else depth
